@@ -21,6 +21,14 @@
 //!   the error text at every byte alignment around 256/1024/4096/8192/65536 bytes with 2-, 3-, 4-byte and mixed
 //!   characters, between ordinary requests. Signatures `C03:<server>:non-ascii-error-text:*`.
 //!
+//! * results that fail to serialize part-way (srv::Tout's Serialize impl fails after two fields / on a map with tuple keys /
+//!   before closing / at once; gen_::ser_groups and, one success in six, the generated pipelines): typed handlers of every
+//!   kind that returns the record (with_typed / with_typed_ctx / their _blocking forms / JsonTypedHandler / struct method,
+//!   plain and middleware-wrapped) with JSON, BEVE, UTF-8 and raw response formats, notify 0/1, pipelined between ordinary
+//!   requests on the same connection and next to bystander connections on the same servers. The failing request gets exactly
+//!   one response with the failed-encode code; every other body is byte for byte (or at least decodes to) the handler's
+//!   result. Signatures `C03:<server>:body-differs-after-failed-serialization:{same,other}-connection`.
+//!
 //! `c01_net` (C01 "net" stage) lives in c03_c01net.rs.
 
 #[path = "c03_cli.rs"]
@@ -63,6 +71,8 @@ struct SeqCtx<'a> {
     reqs: &'a [Req],
     stalled: bool,
     seen: &'a std::cell::RefCell<std::collections::HashSet<String>>,
+    /// pipeline of the failed-serialization class: its role (None: every other class)
+    ser: Option<gen_::SerRole>,
 }
 
 impl SeqCtx<'_> {
@@ -294,16 +304,56 @@ fn check_server(rep: &mut Report, cx: &SeqCtx, srv: &Srv, out: &ConnOut) -> Vec<
             observe_reflected(rep, cx, &name, i, rf, f);
         }
         // ---- L2: the handler's result
+        // a request answered after a result failed to serialize: on this connection (an earlier request of the
+        // pipeline) or, in the failed-serialization class, on another connection served at the same time
+        let failed_before = reqs[..i].iter().rposition(|q| q.expect.label.starts_with("result-unserializable"));
+        let after_failed: Option<&'static str> = match (failed_before, cx.ser) {
+            (Some(_), _) => Some("same-connection"),
+            (None, Some(gen_::SerRole::Bystander)) => Some("other-connection"),
+            _ => None,
+        };
+        if e.label.starts_with("result-unserializable") {
+            rep.count(&format!("ser.unserializable_results_answered_with_ec{}", f.header.ec), 1);
+            rep.count(&format!("ser.unserializable_results_answered.{}", r.variant), 1);
+        }
         let bad: Option<String> = match &e.body {
             ExpBody::Open => None,
             ExpBody::Tout(want, bf) => {
                 if f.header.body_format != *bf {
                     Some(format!("body_format {} instead of {bf}", f.header.body_format))
                 } else {
-                    match decode_tout(&f.body, *bf) {
-                        Some(t) if &t == want => None,
-                        other => Some(format!("body decodes to {other:?}, handler returned {want:?}")),
+                    // byte for byte what the third-party codec makes of the record the handler returned; a body that
+                    // differs in bytes but decodes to the same record is only counted
+                    let canonical = r.target.and_then(|t| gen_::encode_result(t, want, *bf).ok());
+                    if canonical.as_deref() == Some(&f.body[..]) {
+                        rep.count("handler_results_byte_exact", 1);
+                        None
+                    } else {
+                        match decode_tout(&f.body, *bf) {
+                            Some(t) if &t == want => {
+                                rep.count(&format!("info_result_bytes_not_the_third_party_encoding.{}", r.target.map(|t| t.path()).unwrap_or("")), 1);
+                                None
+                            }
+                            other => Some(format!(
+                                "body ({} bytes) {:?} decodes to {other:?}, handler returned {want:?}{}",
+                                f.body.len(),
+                                String::from_utf8_lossy(&f.body[..f.body.len().min(200)]),
+                                match &canonical {
+                                    Some(c) if f.body.len() > c.len() && f.body.ends_with(c) => format!("; the body is {} foreign bytes {:?} followed by exactly the expected {} bytes", f.body.len() - c.len(), String::from_utf8_lossy(&f.body[..(f.body.len() - c.len()).min(120)]), c.len()),
+                                    Some(c) => format!("; expected the {} bytes {:?}", c.len(), String::from_utf8_lossy(&c[..c.len().min(120)])),
+                                    None => String::new(),
+                                }
+                            )),
+                        }
                     }
+                }
+            }
+            ExpBody::Bytes(bf, want) => {
+                if f.header.body_format != *bf || &f.body != want {
+                    Some(format!("(body_format, body) = ({}, {}), the handler's result encodes to ({bf}, {})", f.header.body_format, hex_trunc(&f.body, 64), hex_trunc(want, 64)))
+                } else {
+                    rep.count("handler_results_byte_exact", 1);
+                    None
                 }
             }
             ExpBody::Json(want) => match serde_json::from_slice::<Value>(&f.body) {
@@ -322,8 +372,31 @@ fn check_server(rep: &mut Report, cx: &SeqCtx, srv: &Srv, out: &ConnOut) -> Vec<
                 }
             }
         };
+        if e.body != ExpBody::Open {
+            if let Some(role) = after_failed {
+                rep.count(&format!("ser.results_compared_after_failed_serialization.{role}"), 1);
+            }
+        }
         match bad {
-            Some(b) => cx.viol(rep, format!("C03:wrong-result:{name}:{label}"), format!("{name}, sequence {}, request #{i} ({label}, variant {}): {b}", cx.seq, r.variant), &name, Some(i)),
+            Some(b) => match after_failed {
+                Some(role) => cx.viol(
+                    rep,
+                    format!("C03:{name}:body-differs-after-failed-serialization:{role}"),
+                    format!(
+                        "{name}, sequence {}, request #{i} ({label}, variant {}): the response (ec {}, right id, right query echo) does not report the handler's result: {b}. {}",
+                        cx.seq,
+                        r.variant,
+                        f.header.ec,
+                        match failed_before {
+                            Some(j) => format!("Request #{j} of the same connection ({}, {}, notify={}) had a result that failed to serialize", reqs[j].expect.label, reqs[j].variant, reqs[j].notify),
+                            None => "This pipeline has no failing request; other connections of the same server were served requests whose result fails to serialize at the same time".to_string(),
+                        }
+                    ),
+                    &name,
+                    Some(i),
+                ),
+                None => cx.viol(rep, format!("C03:wrong-result:{name}:{label}"), format!("{name}, sequence {}, request #{i} ({label}, variant {}): {b}", cx.seq, r.variant), &name, Some(i)),
+            },
             None => {
                 if e.body != ExpBody::Open {
                     rep.count("handler_results_matched", 1);
@@ -469,7 +542,9 @@ pub fn run(args: &Args) -> Report {
          long non-ASCII caller text (2/3/4-byte characters, every alignment around 256/1024/4096/8192/65536 bytes of error text) \
          and, on blocking and async TCP servers with 60/100/150 ms read timeouts, frames delivered in pieces with pauses shorter \
          and several times longer than the timeout whose remainder after the cut is itself one or more valid request frames or \
-         garbage; distinct = (class label, target, body format, variant, notify, landmark/width/offset) per request plus the \
+         garbage; plus typed handlers whose RESULT fails to serialize part-way (4 fail modes x JSON/BEVE/UTF-8/raw response format x \
+         6 kinds that return the record, notify 0/1) pipelined between ordinary requests and next to bystander connections on the \
+         same servers, every other body compared with the third-party encoding of the handler's result; distinct = (class label, target, body format, variant, notify, landmark/width/offset) per request plus the \
          class-label sequence of each pipeline, and (server, outer kind, tail kind, cut class, pause class, cut offsets) per \
          read-timeout scenario",
     );
@@ -521,7 +596,7 @@ async fn nonascii_phase(rep: &mut Report, args: &Args, servers: &Arc<Vec<Srv>>, 
     let probe_seq = 900_000u64;
     let probe = Arc::new(gen_::reflect_probe_seq(probe_seq, &mut rng, gst));
     let outs = run_sequence(servers.clone(), probe.clone(), rng.fork(1)).await;
-    let cx = SeqCtx { seed: args.seed, seq: probe_seq, reqs: &probe, stalled: hb.max_gap_ms() > 1000, seen };
+    let cx = SeqCtx { seed: args.seed, seq: probe_seq, reqs: &probe, stalled: hb.max_gap_ms() > 1000, seen, ser: None };
     let singles = judge_sequence(rep, &cx, servers, &outs, false);
     let mut overhead: Vec<(&'static str, Vec<Option<usize>>)> = gen_::REFLECT_KINDS.iter().map(|k| (*k, vec![None; gen_::reflect_subs(k)])).collect();
     for (i, r) in probe.iter().enumerate() {
@@ -574,12 +649,57 @@ async fn nonascii_phase(rep: &mut Report, args: &Args, servers: &Arc<Vec<Srv>>, 
             }
         };
         executed += 1;
-        let cx = SeqCtx { seed: args.seed, seq, reqs: &reqs, stalled: hb.max_gap_ms() > 1000, seen };
+        let cx = SeqCtx { seed: args.seed, seq, reqs: &reqs, stalled: hb.max_gap_ms() > 1000, seen, ser: None };
         judge_sequence(rep, &cx, servers, &outs, executed == 1);
     }
     rep.set("nonascii.pipelines_executed", json!(executed));
     if it.next().is_some() {
         rep.set("nonascii.stopped_by_wall_clock_budget", json!(true));
+    }
+}
+
+/// Workload class "the handler's RESULT fails to serialize part-way": groups of pipelines run concurrently on all eight
+/// servers; in some of them requests whose result cannot be encoded (every fail mode x response format x kind) alternate
+/// with ordinary requests, the others (bystanders, other connections of the same servers / runtime worker threads) carry
+/// ordinary requests only. Same oracle as everywhere: the failing request gets exactly one response with the failed-encode
+/// code, every other response body is exactly the handler's result.
+async fn ser_phase(rep: &mut Report, args: &Args, servers: &Arc<Vec<Srv>>, hb: &Heartbeat, seen: &std::cell::RefCell<std::collections::HashSet<String>>, deadline: Duration) {
+    let mut rng = Rng::new(args.seed ^ 0xC03_5E71);
+    let groups = gen_::ser_groups(950_000, &mut rng, args.budget(14, 160) as usize);
+    rep.set("ser.groups_planned", json!(groups.len()));
+    let mut executed = 0u64;
+    for group in groups {
+        if rep.elapsed() > deadline {
+            rep.set("ser.stopped_by_wall_clock_budget", json!(true));
+            break;
+        }
+        // bystander connections are opened first so that they are being served when the failures happen
+        let mut hs = vec![];
+        for (seq, role, reqs) in group.into_iter().rev() {
+            let reqs = Arc::new(reqs);
+            let h = tokio::spawn(run_sequence(servers.clone(), reqs.clone(), rng.fork(seq)));
+            hs.push((seq, role, reqs, h));
+        }
+        for (seq, role, reqs, h) in hs {
+            let outs = match h.await {
+                Ok(o) => o,
+                Err(e) => {
+                    rep.inconclusive(format!("failed-serialization pipeline {seq} failed: {e}"));
+                    continue;
+                }
+            };
+            executed += 1;
+            let n_fail = reqs.iter().filter(|r| r.expect.label.starts_with("result-unserializable")).count() as u64;
+            rep.count("ser.pipelines_executed", 1);
+            rep.count(if role == gen_::SerRole::Failing { "ser.pipelines_with_failing_results" } else { "ser.bystander_pipelines" }, 1);
+            rep.count("ser.requests_with_unserializable_result_sent_per_path", n_fail);
+            rep.count("ser.unserializable_result_notifies_per_path", reqs.iter().filter(|r| r.notify == 1 && r.expect.label.starts_with("result-unserializable")).count() as u64);
+            let cx = SeqCtx { seed: args.seed, seq, reqs: &reqs, stalled: hb.max_gap_ms() > 1000, seen, ser: Some(role) };
+            judge_sequence(rep, &cx, servers, &outs, executed == 1);
+        }
+    }
+    if executed == 0 {
+        rep.inconclusive("failed-serialization class: no pipeline executed");
     }
 }
 
@@ -621,10 +741,16 @@ fn run_inner(args: &Args, rep: &mut Report) {
         }
         let t_rt = rep.elapsed();
         rep.set("rt.phase_wall_ms", json!(t_rt.as_millis() as u64));
+        // ---- class 1b: handler results that fail to serialize part-way, next to ordinary requests on the same and on
+        // other connections (the eight servers of the main class)
+        let t_ser = rep.elapsed();
+        ser_phase(rep, args, &servers, &hb, &seen, t_ser + Duration::from_secs(if args.thorough() { 40 } else { 5 })).await;
+        let ser_ms = (rep.elapsed() - t_ser).as_millis() as u64;
+        rep.set("ser.phase_wall_ms", json!(ser_ms));
         // ---- class 2: error texts that quote long non-ASCII caller text (the eight servers of the main class)
         let na_deadline = Duration::from_secs(if args.thorough() { 200 } else { 19 });
         nonascii_phase(rep, args, &servers, &hb, &seen, &mut gst, na_deadline).await;
-        rep.set("nonascii.phase_wall_ms", json!((rep.elapsed() - t_rt).as_millis() as u64));
+        rep.set("nonascii.phase_wall_ms", json!(((rep.elapsed() - t_rt).as_millis() as u64).saturating_sub(ser_ms)));
         // ---- class 3: generated pipelines
         let mut pending: std::collections::VecDeque<(u64, Arc<Vec<Req>>, tokio::task::JoinHandle<Vec<ConnOut>>)> = Default::default();
         let mut next = 0u64;
@@ -646,7 +772,7 @@ fn run_inner(args: &Args, rep: &mut Report) {
             };
             executed += 1;
             let stalled = hb.max_gap_ms() > 1000;
-            let cx = SeqCtx { seed, seq, reqs: &reqs, stalled, seen: &seen };
+            let cx = SeqCtx { seed, seq, reqs: &reqs, stalled, seen: &seen, ser: None };
             judge_sequence(rep, &cx, &servers, &outs, seq < 3);
         }
         // late or unattributable invocations: anything still in the log was produced after its request
@@ -670,6 +796,7 @@ fn run_inner(args: &Args, rep: &mut Report) {
     rep.assume("body decodability of generated bodies is classified with serde_json/beve directly (third-party codecs), never through repe");
     rep.assume("when several reject conditions hold at once the statement fixes no precedence: any of the applicable codes is accepted by L2, the differential pins agreement");
     rep.assume("read-timeout class: a server may end a connection whenever the peer pauses (and a pause may stretch on a loaded machine), so unanswered requests at the end of such a connection are never a violation; only responses / handler runs for frames that were not sent, skipped, duplicated, reordered or wrong responses are");
+    rep.assume("a handler RESULT that cannot be serialized (decided with serde_json/beve alone) is not a class the statement names a code for: the accepted code is the one the library's error types map a failed encode to (ParseError 5 via RepeError::Json/Beve; struct methods InvalidBody 4 via StructError::Serialize), the L3 differential pins agreement across transports; every OTHER response body must be the third-party encoding of the handler's result (or at least decode to it)");
     rep.assume("error texts are not pinned by the statement: they are compared across the four transports (L3) and a body labelled UTF-8 must be UTF-8; whether the caller text is quoted in full is only counted");
     if executed == 0 {
         rep.inconclusive("no sequence executed");
